@@ -43,11 +43,24 @@ def cases(tier, seed):
                 break
         base = {'gen': 'prod', 'routine': routine, 'M': M, 'N': N, 'K': K, 'RA': gens.rank_profile(rng, d, 'rand', 4), 'RB': gens.rank_profile(rng, d, 'rand', 4),
                 'vals': ['gauss', 'decay', 'gauss', 'gauss'][(i // 4) % 4], 'eps': 10 ** rng.uniform(-12, -1), 'guess': ['none', 'none', 'user'][(i // 2) % 3],
-                'dtype': 'c128' if (routine in ('fast_matvec', 'dmrg_hadamard') and i % 5 == 4) else 'f64', 'vseed': rng.randrange(2 ** 40), 'RG': gens.rank_profile(rng, d, 'rand', 5)}
+                'dtype': 'c128' if (routine in ('fast_matvec', 'dmrg_hadamard') and i % 5 == 4) else 'f64', 'vseed': rng.randrange(2 ** 40), 'RG': gens.rank_profile(rng, d, 'rand', 5),
+                'scale': [1.0, 1.0, 1e4, 1e-4, 1.0, 1e3][(i // 4) % 6]}
         for j in range(k):
             c = dict(base)
             c['sidx'] = j
             cs.append(c)
+    # directed: long chains whose LAST modes are tiny while the inner product ranks are large (the last supercore converges at once, the inner ones do not)
+    for i in range(8 if not T else 60):
+        routine = ROUTINES[i % 4]
+        d = rng.choice([4, 5])
+        inner = rng.choice((5, 6))
+        M = [inner] * (d - 1) + [rng.choice((1, 2))]
+        N = [inner] * (d - 1) + [rng.choice((1, 2))]
+        if routine == 'amen_mm':
+            M, N = [4] * (d - 1) + [2], [4] * (d - 1) + [rng.choice((1, 2))]
+        for j in range(k):
+            cs.append({'gen': 'prod', 'routine': routine, 'M': M, 'N': N, 'K': [2] * (d - 1) + [1], 'RA': [1] + [4] * (d - 1) + [1], 'RB': [1] + [4] * (d - 1) + [1], 'vals': 'gauss',
+                       'eps': 10 ** rng.uniform(-10, -6), 'guess': ['none', 'user'][i % 2], 'dtype': 'f64', 'vseed': rng.randrange(2 ** 40), 'RG': [1] + [2] * (d - 1) + [1], 'sidx': j, 'scale': 1.0})
     # directed: order 1 and 2, singleton modes, zero operands
     for routine in ROUTINES:
         for (M, N) in [([3], [4]), ([1], [1]), ([2, 3], [3, 2]), ([1, 4], [2, 1]), ([2, 1, 2], [1, 3, 1])]:
@@ -60,17 +73,20 @@ def cases(tier, seed):
 
 
 def mk(case, g, N, R, M=None, vals=None):
+    import torchtt
     dt = dn.dtype_of(case['dtype'])
     vals = vals or case['vals']
+    sc = float(case.get('scale', 1.0))      # overall magnitude of the operand (norm-rescaling inside the sweeps must not leak into the tolerance)
+    cores = gens.make_cores(N, R, dt, 'gauss' if vals == 'decay' else vals, g, M=M)
     if vals == 'decay':
-        import torchtt
-        cores = gens.make_cores(N, R, dt, 'gauss', g, M=M)
         out = []
         for c in cores:
             w = torch.tensor([0.2 ** j for j in range(c.shape[-1])], dtype=torch.float64).to(c.dtype)
             out.append(c * w)
-        return torchtt.TT(out)
-    return gens.make_tt(N, R, dt, vals, g, M=M)
+        cores = out
+    if sc != 1.0:
+        cores[0] = cores[0] * sc
+    return torchtt.TT(cores)
 
 
 def run_case(case, ctx):
@@ -123,8 +139,8 @@ def run_case(case, ctx):
     nref = dn.fro(ref)
     oclass = 'order1' if d == 1 else ('order2' if d == 2 else 'order>=3')
     key = '%s/%s/guess=%s' % (routine, oclass, case['guess'])
-    what = '%s M=%s N=%s%s RA=%s RB=%s eps=%.3e guess=%s %s vals=%s seed-index %d' % (routine, M, N, (' K=%s' % K) if routine == 'amen_mm' else '', case['RA'], case['RB'], eps, case['guess'],
-                                                                                 case['dtype'], case['vals'], case['sidx'])
+    what = '%s M=%s N=%s%s RA=%s RB=%s eps=%.3e guess=%s %s vals=%s scale=%g seed-index %d' % (routine, M, N, (' K=%s' % K) if routine == 'amen_mm' else '', case['RA'], case['RB'], eps, case['guess'],
+                                                                                          case['dtype'], case['vals'], case.get('scale', 1.0), case['sidx'])
     y = ctx.lib(routine + ('(guess)' if guess is not None else ''), f, *ops)
     if isinstance(y, Raised):
         ctx.viol(key + '/clause=raises:%s@%s' % (y.type, y.func), '%s raised %r' % (what, y))
@@ -152,6 +168,6 @@ def run_case(case, ctx):
             what, err, C_EPS * eps * nref, 1e3 * u * srep, err / (eps * nref) if nref > 0 else float('inf'), [int(r) for r in y.R]))
     if nref > 0:
         import math
-        ctx.nontrivial((routine, tuple(M), tuple(N), tuple(case['RA']), tuple(case['RB']), int(math.log10(eps)), case['guess'], case['dtype'], case['vals'], case['sidx']))
+        ctx.nontrivial((routine, tuple(M), tuple(N), tuple(case['RA']), tuple(case['RB']), int(math.log10(eps)), case['guess'], case['dtype'], case['vals'], case.get('scale', 1.0), case['sidx']))
     else:
         ctx.count('zero_reference_executions')
